@@ -334,6 +334,7 @@ def run(rep, tier, seed):
         if sc.report(rep, jd, f, ("file", "match"), "C02"):
             rep.distinct(tuple(jd.script[6:]))
     rep.cov["traces_validated_against_impl"] = len(judged)
+    sessions.run_crash_continue(rep, "C02", rng, tier, "content")
     rep.cov["distribution"] = sc.distribution(judged)
     rep.cov["rule"] = ("sessions over 1-4 simultaneously open files: write/read lengths and seek targets drawn around 0, k*cluster-1, "
                        "k*cluster, k*cluster+1 and randomly; SeekFrom Start/End/Current incl. negative, beyond the end, >= 2^32, i64 extremes; "
